@@ -158,3 +158,31 @@ func verif_NewCryptoReadWriter(rw io.ReadWriter, key []byte) {
 	verif.Ensures(verif.CalledWith("golib/crypto.NewReader", 1, key) && verif.Same(verif.NthArg[any]("golib/crypto.NewReader", 0, 0), any(rw)), "reads_decrypted_with_the_key")
 	verif.Ensures(verif.CalledWith("golib/crypto.NewWriter", 1, key) && verif.Same(verif.NthArg[any]("golib/crypto.NewWriter", 0, 0), any(rw)), "writes_encrypted_with_the_key")
 }
+
+// CloseNotifyConn.Close (C10 "everything a session held is released on every
+// termination path": the server's websocket control connections and the
+// virtual-net visitor's pipe are handed out wrapped in it): the first Close
+// closes the wrapped connection - exactly once - and then runs the
+// notification; a later Close does nothing.
+//
+//verif:dyncall (*~/pkg/util/net.CloseNotifyConn).Close 1
+func verifSpecCloseFn() { verif.HavocExcept("H.pkg.util.net.CloseNotifyConn.") }
+
+//verif:contract (*~/pkg/util/net.CloseNotifyConn).Close
+//verif:props C10
+//verif:kinds post
+func verif_CloseNotifyConn_Close(cc *CloseNotifyConn) {
+	first := cc.closeFlag == 0
+	inner := cc.Conn
+	verif.ResetEvents()
+	_ = cc.Close()
+	verif.Ensures(cc.closeFlag == 1, "marked_closed")
+	if first {
+		verif.Ensures(verif.CallCountWith("net.Conn).Close", 0, inner) == 1, "wrapped_connection_closed_exactly_once")
+		if cc.closeFn != nil {
+			verif.Ensures(verif.Called("dyncall:") && verif.CalledBefore("net.Conn).Close", "dyncall:"), "notified_after_the_connection_is_closed")
+		}
+	} else {
+		verif.Ensures(!verif.Called("net.Conn).Close") && !verif.Called("dyncall:"), "second_close_does_nothing")
+	}
+}
